@@ -30,6 +30,26 @@ class Config:
         self.empty = set(self.flags.get("empty", ()))  # space keys with size == 0
 
 
+# positional parameter names of external functions (so that keyword call style reaches the same primitive)
+EXT_SIGNATURES = {
+    "sklearn.metrics.pairwise_distances": ["X", "Y", "metric"], "sklearn.metrics.pairwise.pairwise_distances": ["X", "Y", "metric"],
+    "scipy.spatial.distance.cdist": ["XA", "XB", "metric"], "scipy.spatial.distance.cityblock": ["u", "v"],
+    "scipy.optimize.linear_sum_assignment": ["cost_matrix"],
+    "numpy.dot": ["a", "b"], "numpy.outer": ["a", "b"], "numpy.multiply": ["x1", "x2"], "numpy.divide": ["x1", "x2"],
+    "numpy.add": ["x1", "x2"], "numpy.subtract": ["x1", "x2"], "numpy.maximum": ["x1", "x2"], "numpy.minimum": ["x1", "x2"],
+    "numpy.power": ["x1", "x2"], "numpy.where": ["condition", "x", "y"], "numpy.linspace": ["start", "stop", "num"],
+    "numpy.interp": ["x", "xp", "fp"], "numpy.fill_diagonal": ["a", "val"], "numpy.array": ["object"], "numpy.asarray": ["a"],
+    "numpy.zeros": ["shape"], "numpy.ones": ["shape"], "numpy.full": ["shape", "fill_value"], "numpy.sum": ["a", "axis"],
+    "numpy.max": ["a", "axis"], "numpy.min": ["a", "axis"], "numpy.sort": ["a", "axis"], "numpy.unique": ["ar"],
+    "numpy.abs": ["x"], "numpy.sqrt": ["x"], "numpy.exp": ["x"], "numpy.log": ["x"], "numpy.isfinite": ["x"], "numpy.isinf": ["x"],
+    "numpy.copy": ["a"], "numpy.reshape": ["a", "newshape"], "numpy.pad": ["array", "pad_width"], "numpy.meshgrid": [],
+    "numpy.clip": ["a", "a_min", "a_max"], "numpy.argmax": ["a", "axis"], "numpy.argmin": ["a", "axis"],
+    "numpy.concatenate": ["arrays", "axis"], "numpy.vstack": ["tup"], "numpy.hstack": ["tup"], "numpy.tril_indices": ["n", "k"],
+    "numpy.isclose": ["a", "b"], "numpy.array_equal": ["a1", "a2"], "numpy.any": ["a", "axis"], "numpy.all": ["a", "axis"],
+    "builtins.sorted": ["iterable"], "builtins.len": ["obj"], "builtins.enumerate": ["iterable", "start"],
+}
+
+
 class Flow(Exception):
     pass
 
@@ -770,6 +790,11 @@ class Interp:
                 cur[n] = Arr(v.axes, ph, "nd", v.uid)
             elif isinstance(v, Seq) and v.kind == "list":
                 cur[n] = _SeqAcc(v.items)
+            elif (isinstance(v, Arr) and v.kind == "list") or isinstance(v, Concat):
+                # a list that an earlier loop filled and this loop keeps appending to
+                acc0 = _SeqAcc([])
+                acc0.prefix = v
+                cur[n] = acc0
         for rounds in range(4):
             body_env = dict(cur)
             body_env["$reach"] = Sc(sym.TRUE)
@@ -813,16 +838,22 @@ class Interp:
                         post[n] = val
                 elif isinstance(cur[n], _SeqAcc):
                     acc = new if isinstance(new, _SeqAcc) else None
+                    prefix = getattr(cur[n], "prefix", None)
                     if acc is not None and len(acc.appended) == 1 and is_for and not acc.conditional:
                         item = acc.appended[0]
                         reach = acc.reaches[0] if acc.reaches else sym.TRUE
                         space = sp if self.decide(reach) is True or reach == sym.TRUE else subspace(sp, reach)
                         arr = self._list_from_items(item, space, iv)
                         post[n] = arr if not acc.items else Concat([Seq(acc.items), arr])
+                        if prefix is not None:
+                            post[n] = Concat((list(prefix.parts) if isinstance(prefix, Concat) else [prefix]) +
+                                             (list(post[n].parts) if isinstance(post[n], Concat) else [post[n]]))
                         loop_rec["carried"][n] = dict(kind="list-append", elem=item)
                     elif acc is not None and not acc.appended:
-                        post[n] = Seq(acc.items)
+                        post[n] = Seq(acc.items) if prefix is None else prefix
                     else:
+                        if prefix is not None:
+                            self.lose("irregular appends to a list that an earlier loop filled", st)
                         parts = acc.appended if acc is not None else []
                         post[n] = Bag(sym.Choice([generic_elem(x) for x in parts]) if parts else sym.Opq("empty", ()),
                                       None, False, None) if parts else self.unknown("list-in-loop:" + n, st)
@@ -943,21 +974,25 @@ class Interp:
             return
         if isinstance(target, ast.Attribute):
             base = self.eval(target.value, env)
-            self.event("attrstore", st, base=base, attr=target.attr, value=v)
-            if isinstance(base, ObjV):
-                setter = None
-                if base.cls:
-                    c = self.p.classes.get(base.cls)
-                    setter = c.lookup_setter(target.attr, self.p) if c else None
-                if setter is not None:
-                    self.call_function(setter, [base, v], {}, st)
-                else:
-                    base.attrs[target.attr] = v
+            self.set_attribute(base, target.attr, v, st)
             return
         if isinstance(target, ast.Starred):
             self.assign(target.value, v, env, st)
             return
         self.unknown("assign-target-" + type(target).__name__, st)
+
+    def set_attribute(self, base: Val, attr: str, v: Val, st):
+        """`base.attr = v` (also reached through setattr(base, "attr", v)): property setters of repo classes are run"""
+        self.event("attrstore", st, base=base, attr=attr, value=v)
+        if isinstance(base, ObjV):
+            setter = None
+            if base.cls:
+                c = self.p.classes.get(base.cls)
+                setter = c.lookup_setter(attr, self.p) if c else None
+            if setter is not None:
+                self.call_function(setter, [base, v], {}, st)
+            else:
+                base.attrs[attr] = v
 
     def unpack(self, v: Val, n: int, node) -> List[Val]:
         if isinstance(v, Seq) and len(v.items) == n:
@@ -1694,10 +1729,19 @@ class Interp:
                 return self.call_function(fi, pos, kwargs, n, closure_env=fv.closure)
             if fv.kind == "prim":
                 h = self.prims.get(fv.target)
+                # leading parameters passed by keyword are put in their positions (np.dot(a=x, b=y), pairwise_distances(X=, Y=))
+                sig = EXT_SIGNATURES.get(fv.target)
+                if sig and kwargs:
+                    pos, kwargs = list(pos), dict(kwargs)
+                    while len(pos) < len(sig) and sig[len(pos)] in kwargs:
+                        pos.append(kwargs.pop(sig[len(pos)]))
                 self.event("ext-call", n, target=fv.target, pos=pos, kwargs=kwargs)
                 if h is None:
                     return self.unknown("prim:" + fv.target, n, tuple(generic_elem(x) for x in pos))
-                r = h(self, n, pos, kwargs)
+                try:
+                    r = h(self, n, pos, kwargs)
+                except IndexError:
+                    return self.unknown("prim-arity:" + fv.target, n, tuple(generic_elem(x) for x in pos))
                 self.log[-1]["result"] = r if self.log and self.log[-1].get("node") is n else None
                 return r
             if fv.kind == "opaque":
